@@ -61,12 +61,12 @@ def cs_flush_before_close(sc):
         return False, "ServerProcessor.flushResponse not found"
     calls = [f for f in fl if f["kind"] == "call" and f["closure"] == 0]
     fls = [f["line"] for f in calls if f["expr"] == "res.flush"]
-    cls = [f["line"] for f in calls if f["expr"] in ("conn.Close", "closeAfterFlush")]
+    cls = [f["line"] for f in calls if f["expr"] == "conn.Close"]
     problems = []
     if len(fls) != 1:
         problems.append("expected one res.flush call, found %d" % len(fls))
     if not cls:
-        problems.append("no conn.Close / closeAfterFlush call (predicate vacuous)")
+        problems.append("no conn.Close call (predicate vacuous)")
     if fls and cls and min(cls) < fls[0]:
         problems.append("conn.Close at line %d precedes res.flush at line %d" % (min(cls), fls[0]))
     if [f for f in fl if f["kind"] == "go"]:
@@ -91,11 +91,11 @@ PROPS = {
                     "prediction over the matrix IOMod x {plain, TLS} x epoll mode, plus direct oracles for order, close, foreign bytes, callbacks",
             "note": "proof on model, partial: TLS record layer, real scheduling and I/O-mode dispatch are exercised, not modelled; "
                     "the model is above C05/C06/C07/C09/C11/C20 (their conclusions are hypotheses of the composition; C05's are cited in the "
-                    "closure, c10_queue_field_is_c05, not refined).  Clause status: 'answers each request exactly once' holds at full strength in the model of the "
-                    "repaired code (c10_pipeline_total / c10_pipeline: any short writes, no ghost hypothesis; the close decision waits for the "
-                    "write list — fix 'Conn.CloseAfterFlush', formerly finding c10-close-drops-backlog); only an immediate close (Close, "
-                    "deadline, reset: extClose) can cut a response (c10_dropped_only_by_ext).  "
-                    "'bytes never appear on another connection': the "
+                    "closure, c10_queue_field_is_c05, not refined).  Clause status: 'answers each request exactly once' is VIOLATED on the tree "
+                    "for closing requests whose response the kernel did not take in full (finding c10-close-drops-backlog, "
+                    "c10_pipeline_counterexample); it is proved for histories without a closing request under any kernel behaviour "
+                    "(c10_pipeline_keepalive), for any history when the kernel takes every write in full (c10_pipeline), and otherwise only "
+                    "under the ghost condition dropped = false (c10_pipeline_partial).  'bytes never appear on another connection': the "
                     "SharedHeap theorem is about the mechanism and is executed by no driver — the tie of this clause is the oracle "
                     "c10-foreign only.  Shared pollers / executors / the fd table have no model (oracles only)",
             "technique": "Lean 4 proof (invariants over all interleavings, simulation for non-interference) + differential correspondence on real sockets"},
@@ -116,7 +116,8 @@ PROPS = {
                         "timing: a stalled case is re-run twice before it is reported; content failures are reported at once",
                         "echoed inputs of the model (taken from the implementation, not computed): got= (number of responses the nbhttp "
                         "client's parser delivered; the model only insists got <= what the server sent), lost= (pool-client requests whose "
-                        "callback got an error); sched= comes from the generator, the real interleaving is not observed; cfg.sync is not observable; "
+                        "callback got an error), cut= (first response that broke off; accepted only if a closing request at or behind it "
+                        "exists); sched= comes from the generator, the real interleaving is not observed; cfg.sync is not observable; "
                         "the ghost `handled` is not compared (handler order is a direct oracle instead); st=/body=/rb= are recomputed by "
                         "driver glue from the request line, not by a proved function",
                         "ClientFifo operations never executed against the implementation: timeout expiry inside onResponse, reset "
